@@ -1091,7 +1091,12 @@ def _render_file(fid: str, spec: dict) -> str:
                   f"make_{fid} = make", f"wrap_{fid} = wrap", f"twrap_{fid} = twrap", f"tsame_{fid} = tsame",
                   f"texist_{fid} = texist", f"rb_view_{fid} = rb_view", ""]
     lines.append(f"sim.mark('loaded_end', {fid!r}, {own})")
-    lines += _render_tail(fid, spec)
+    tail = _render_tail(fid, spec)
+    lines += tail
+    if tail:
+        # the top-level code of the file really ends here (the module is registered only after it): the window in
+        # which a second import of the file races with this load (recorded finding C11-K1) lasts until then
+        lines.append(f"sim.mark('loaded_fin', {fid!r}, tok=tok_{fid})")
     return "\n".join(lines) + "\n"
 
 
@@ -1597,6 +1602,9 @@ def judge(w: World, scn: dict, st: dict):
                          f"top-level code of {PATH[fid]} ran again (tokens {toks}) although no pyscript.reload was in "
                          f"flight between the end of the previous load and the import that caused this one", m["t"],
                          once=(fid, False))
+            continue
+        if kind == "loaded_fin":
+            load_done[kw.get("tok")] = idx
             continue
         if kind == "loaded_end":
             load_done[kw.get("tok")] = idx
